@@ -223,7 +223,7 @@ def c13(tier, replay=None):
                 "subset of the rules is anonymous (named by the compiler); non-trivial = programs with >= 2 components")
     res.assumptions = ["component libraries are produced by a deterministic stub rustc (real rustc output is outside the statement)"]
     q = tier == "quick"
-    specs = specs_for(tier, 170, 3000, PROFILES_ALL)
+    specs = specs_for(tier, 130, 3000, PROFILES_ALL)
     aggregate(res, pmap(c13_task, [{"spec": s, "seed": seed(), "anonymous": i % 2 == 0} for i, s in enumerate(specs)]))
     return res.finish()
 
